@@ -460,6 +460,7 @@ Proof. intros U d. right. reflexivity. Qed.
 
 Section Main.
   Variable xfer : proto -> msg -> rmsg -> out rmsg.
+  Variable tns : text.
 
   Theorem null_eq_wire : forall U p dcs ms key d hs f args kw,
     decorate_all U dcs = Ok ms ->
@@ -470,9 +471,9 @@ Section Main.
     codec_carries xfer U p d (hdr_of hs) f args kw ->
     fun_fits U d (hdr_of hs) f args kw ->
     outcome_rel (fst (null_call U ms key (hdr_of hs) f args kw))
-                (fst (wire_call xfer U p ms key hs f args kw))
+                (fst (wire_call xfer tns U p ms key hs f args kw))
     /\ app_trace (snd (null_call U ms key (hdr_of hs) f args kw)) = ref_trace U d (hdr_of hs) f args kw
-    /\ app_trace (snd (wire_call xfer U p ms key hs f args kw)) = ref_trace U d (hdr_of hs) f args kw.
+    /\ app_trace (snd (wire_call xfer tns U p ms key hs f args kw)) = ref_trace U d (hdr_of hs) f args kw.
   Proof.
     intros U p dcs ms key d hs f args kw Hd Hf Hn Hw Hc Hh [Hx1 Hx2] Hfit.
     pose proof (shape_of_method _ _ _ _ _ Hd Hf) as Hs.
@@ -494,9 +495,10 @@ Section Main.
 
   Theorem unknown_method_same_fault : forall U p ms key hs h f args kw,
     find_method ms key = None ->
-    null_call U ms key h f args kw = (Raised (resource_not_found key), [])
-    /\ wire_call xfer U p ms key hs f args kw = (Raised (resource_not_found key), []).
-  Proof. intros. unfold null_call, null_call_gen, wire_call. rewrite H. split; reflexivity. Qed.
+    fst (null_call U ms key h f args kw) = Raised (resource_not_found key)
+    /\ fst (wire_call xfer tns U p ms key hs f args kw) = Raised (resource_not_found (qname tns key))
+    /\ snd (null_call U ms key h f args kw) = [].
+  Proof. intros. unfold null_call, null_call_gen, wire_call. rewrite H. repeat split; reflexivity. Qed.
 End Main.
 
 (* ------------------------------------------------------------------ keyword = positional *)
@@ -557,6 +559,7 @@ Qed.
 
 Section Ignored.
   Variable xfer : proto -> msg -> rmsg -> out rmsg.
+  Variable tns : text.
 
   (** the response the server writes for an Ignored return carries one null per declared value *)
   Lemma wire_ignored_ok : forall U p d pl, shape d -> wire_supported U p d ->
@@ -620,7 +623,7 @@ Section Ignored.
     (forall r, client_request U d args kw = Ok r -> xfer p (md_in d) r = Ok r) ->
     (forall m, srv_response U p d (out_object_of d (PIgnored pl)) = Ok m -> xfer p (md_out d) m = Ok m) ->
     fst (null_call U ms key (hdr_of hs) f args kw) = Returned (PIgnored pl)
-    /\ fst (wire_call xfer U p ms key hs f args kw) = Returned (empty_result U d).
+    /\ fst (wire_call xfer tns U p ms key hs f args kw) = Returned (empty_result U d).
   Proof.
     intros U p dcs ms key d hs f args kw pl Hd Hf Hn Hw Hc Hh Hret Hx1 Hx2.
     pose proof (shape_of_method _ _ _ _ _ Hd Hf) as Hs.
@@ -668,6 +671,7 @@ End Ignored.
 (* ------------------------------------------------------------------ corollaries and the regions outside the guard *)
 Section Corollaries.
   Variable xfer : proto -> msg -> rmsg -> out rmsg.
+  Variable tns : text.
 
   Theorem null_eq_wire_soap : forall U dcs ms key d hs f args kw,
     decorate_all U dcs = Ok ms -> find_method ms key = Some d ->
@@ -677,9 +681,9 @@ Section Corollaries.
     codec_carries xfer U PSoap d (hdr_of hs) f args kw ->
     fun_fits U d (hdr_of hs) f args kw ->
     outcome_rel (fst (null_call U ms key (hdr_of hs) f args kw))
-                (fst (wire_call xfer U PSoap ms key hs f args kw))
+                (fst (wire_call xfer tns U PSoap ms key hs f args kw))
     /\ app_trace (snd (null_call U ms key (hdr_of hs) f args kw)) = ref_trace U d (hdr_of hs) f args kw
-    /\ app_trace (snd (wire_call xfer U PSoap ms key hs f args kw)) = ref_trace U d (hdr_of hs) f args kw.
+    /\ app_trace (snd (wire_call xfer tns U PSoap ms key hs f args kw)) = ref_trace U d (hdr_of hs) f args kw.
   Proof. intros. eapply null_eq_wire; eauto. apply wire_supported_soap. Qed.
 
   Theorem null_eq_wire_xml_when_first : forall U dcs ms key d f args kw,
@@ -690,12 +694,12 @@ Section Corollaries.
     codec_carries xfer U PXml d None f args kw ->
     fun_fits U d None f args kw ->
     outcome_rel (fst (null_call U ms key None f args kw))
-                (fst (wire_call xfer U PXml ms key [] f args kw))
+                (fst (wire_call xfer tns U PXml ms key [] f args kw))
     /\ app_trace (snd (null_call U ms key None f args kw)) = ref_trace U d None f args kw
-    /\ app_trace (snd (wire_call xfer U PXml ms key [] f args kw)) = ref_trace U d None f args kw.
+    /\ app_trace (snd (wire_call xfer tns U PXml ms key [] f args kw)) = ref_trace U d None f args kw.
   Proof.
     intros U dcs ms key d f args kw Hm Hd Hf Hn Hc Hx Hfit.
-    apply (null_eq_wire xfer U PXml dcs ms key d [] f args kw); auto.
+    apply (null_eq_wire xfer tns U PXml dcs ms key d [] f args kw); auto.
     - right. exact Hm.
     - left. reflexivity.
   Qed.
@@ -757,7 +761,7 @@ Theorem hier_bare_request_refuted :
   exists U dcs ms key d args kw,
     decorate_all U dcs = Ok ms /\ find_method ms key = Some d /\ null_supported U d /\
     call_ok (param_names U d) args kw /\
-    forall f, ~ In (EvUser None (delivered U d args kw)) (snd (wire_call xfer_id U PHier ms key [] f args kw))
+    forall f, ~ In (EvUser None (delivered U d args kw)) (snd (wire_call xfer_id [117] U PHier ms key [] f args kw))
               /\ In (EvUser None (delivered U d args kw)) (snd (null_call U ms key None f args kw)).
 Proof.
   exists U_inh, dcs_inh, [d_bd], [98; 100], d_bd, [], [([99], VLeaf (LBool true))].
